@@ -122,7 +122,7 @@ Bal(w,pv,f,k) == IF k > Len(w.jorder) THEN f ELSE
        n == w.rows[j]                                     \* > 1 only inside a duration group
        inflow == [r \in 1..n |-> IF n = 1 THEN RSumSet(ins, [l \in ins |-> Tot(f[l])])
                                           ELSE RSumSet(ins, [l \in ins |-> RowAt(f[l], r)])]
-       fr == [l \in outs |-> IF w.lpar[l] = 0 THEN Zero ELSE pv[w.lpar[l]]]
+       fr == [l \in outs |-> IF w.lpar[l] = 0 THEN Zero ELSE RClamp0(pv[w.lpar[l]])]      \* a negative proportion moves nobody (never a reverse flow)
        tot == RSumSet(outs, fr)
        f2 == IF w.kind[j] = "junction"
              THEN [l \in 1..NL(w) |-> IF l \in outs THEN [r \in 1..n |-> IF tot = Zero THEN Zero ELSE RDiv(RMul(inflow[r], fr[l]), tot)] ELSE f[l]]
@@ -137,7 +137,7 @@ Bal(w,pv,f,k) == IF k > Len(w.jorder) THEN f ELSE
 \* a plain junction that receives people while all its proportions are zero is ill-posed (0/0): excluded by C01's domain
 IllPosed(w,pv,f) == \E j \in 1..NC(w) : w.kind[j] = "junction" /\
       LET outs == Outl(w,j)  ins == Inl(w,j)
-      IN RSumSet(outs, [l \in outs |-> pv[w.lpar[l]]]) = Zero /\ RLt(Zero, RSumSet(ins, [l \in ins |-> Tot(f[l])]))
+      IN RSumSet(outs, [l \in outs |-> RClamp0(pv[w.lpar[l]])]) = Zero /\ RLt(Zero, RSumSet(ins, [l \in ins |-> Tot(f[l])]))
 
 \* ---------- UpdateComps ---------------------------------------------------------------------------
 OutRow(w,ca,st,c,r) == LET outs == Outl(w,c) IN
@@ -168,7 +168,7 @@ AddAll(w, st, ls, amt) == IF ls = {} THEN st ELSE
 RECURSIVE Flush(_,_,_,_)
 Flush(w,pv,st,k) == IF k > Len(w.jorder) THEN st ELSE
    LET j == w.jorder[k]  x == st[j][1]  outs == Outl(w,j)
-       fr == [l \in outs |-> IF w.lpar[l] = 0 THEN Zero ELSE pv[w.lpar[l]]]
+       fr == [l \in outs |-> IF w.lpar[l] = 0 THEN Zero ELSE RClamp0(pv[w.lpar[l]])]      \* a negative proportion moves nobody (never a reverse flow)
        tot == RSumSet(outs, fr)
    IN IF ~RLt(Zero, x) THEN Flush(w,pv,st,k+1)
       ELSE LET amt == IF w.kind[j] = "junction" THEN [l \in outs |-> RDiv(RMul(x, fr[l]), tot)]
@@ -178,7 +178,7 @@ Flush(w,pv,st,k) == IF k > Len(w.jorder) THEN st ELSE
                st2 == AddAll(w, st, outs, amt)
            IN Flush(w, pv, [st2 EXCEPT ![j] = <<Zero>>], k+1)
 FlushIllPosed(w,pv,st) == \E j \in 1..NC(w) : w.kind[j] = "junction" /\ RLt(Zero, st[j][1]) /\
-      LET outs == Outl(w,j) IN RSumSet(outs, [l \in outs |-> pv[w.lpar[l]]]) = Zero
+      LET outs == Outl(w,j) IN RSumSet(outs, [l \in outs |-> RClamp0(pv[w.lpar[l]])]) = Zero
 
 \* ==================================================================================================
 W == Worlds[wi]
@@ -251,13 +251,13 @@ C02_Ratio == phase = "links" => \A c \in 1..NC(W) : W.kind[c] \in {"normal","tim
           ((W.ltimed[l1] \/ W.ltimed[l2]) /\ r = 1) \/
           RMul(LinkRow(W,cache,stock,l1,r), cache[l2]) = RMul(LinkRow(W,cache,stock,l2,r), cache[l1])
 C02_NegZero == phase = "links" => \A p \in 1..NP(W) : RLt(pval[p], Zero) =>
-      \A l \in ParLinks(W,p) : IsJ(W, W.lsrc[l]) \/ Tot(flow[l]) = Zero
+      \A l \in ParLinks(W,p) : Tot(flow[l]) = Zero
 
 \* C04 ---------------------------------------------------------------------------------------------
 C04_JEmpty == phase \notin {"built","pars0"} => \A c \in 1..NC(W) : IsJ(W,c) => Tot(stock[c]) = Zero
 C04_JSplit == (phase = "links" /\ WellPosed) => \A j \in 1..NC(W) : IsJ(W,j) =>
       LET outs == Outl(W,j)
-          fr == [l \in outs |-> IF W.lpar[l] = 0 THEN Zero ELSE pval[W.lpar[l]]]
+          fr == [l \in outs |-> IF W.lpar[l] = 0 THEN Zero ELSE RClamp0(pval[W.lpar[l]])]      \* negative proportions count as zero (C02)
           tot == RSumSet(outs, fr)
           inflow == InF(j)
       IN \A l \in outs :
